@@ -159,7 +159,7 @@ ADVISORY_RE = _re.compile(
     r"|set\.recreate\.|setifelse\.recreate\.|binop\.recreate\.dispatch_|unop\.recreate\.dispatch_"
     r"|\.fold\.constants_equal_exec|with_exec\.constants_folded_by_exec|iws\.recreate\.delegates"
     r"|arrayrepeat\.fold\.constants_equal_exec|\.fold1\.constant_equals_exec"
-    r"|(anonfn|fndecl)\.recreate\.body_folded)")
+    r"|(anonfn|fndecl)\.recreate\.body_folded|arrayrepeat\.recreate\.value_then_length)")
 
 
 def is_advisory(oid):
